@@ -41,7 +41,8 @@ OFn(f, args) == [k |-> "fn", f |-> f, args |-> args]
 OKey == [k |-> "key"]
 OUndef == [k |-> "undef"]
 OList(items) == [k |-> "list", items |-> items]
-ORe(re, ic) == [k |-> "re", re |-> re, ic |-> ic]
+ORe(re, ic) == [k |-> "re", re |-> re, ic |-> ic, lit |-> FALSE]    \* a pattern given as a string literal
+OReLit(re, ic) == [k |-> "re", re |-> re, ic |-> ic, lit |-> TRUE]  \* a /pattern/flags literal (non-standard)
 
 \* evaluation environment of a filter expression
 Env(cur, root, ctx, key) == [cur |-> cur, root |-> root, ctx |-> ctx, key |-> key]
